@@ -122,6 +122,11 @@ func checkC20(w *World, r *Report) {
 	checkC20Wiring(w, r)
 	// the message is the router-wide resolver's answer in special handlers only if those see no route (rule C11.1)
 	checkScrubRule(w, r, analyseDispatch(w), "C20.6")
+	// "the response status actually recorded" is the status the client got only if the recorder keeps to its header
+	// discipline (rules C14.2 and C14.3, repeated here)
+	ri := newRecInfo(w)
+	checkC14HeaderAs(w, r, ri, "C20.7")
+	checkC14PathsAs(w, r, ri, "C20.8")
 }
 
 type ivl struct{ lo, hi int64 }
